@@ -98,11 +98,12 @@ def readObj (c : Cfg) (tid : Nat) : P Obj := readObjects c tid 1 false
 def skipObjects (c : Cfg) (tid : Nat) (count : Int) (packed : Bool) : P Unit := do
   if count < 0 then P.fail .invalidSize else
   if isArr tid then
+    -- repair F20: a negative distance is refused (the stream must never move backwards)
     if packed then do
       let skip ← readInt32 c
-      seek skip
+      if skip < 0 then P.fail .invalidSize else seek skip
     else
-      skipMany count.toNat (do let skip ← readInt32 c; seek skip)
+      skipMany count.toNat (do let skip ← readInt32 c; if skip < 0 then P.fail .invalidSize else seek skip)
   else
     match fixedSize tid with
     | .error e => P.fail e
